@@ -44,7 +44,7 @@ section
 variable (T : Stat) {s : Store} {c : SCtx} {nd : Nat} {M : Mem}
 
 /-- an array read inside an expression -/
-theorem sim_idxleaf (env0 : Env) (inv0 : SInv T.M0 T.S.cs T.cnts T.σ T.vtys s env0 M)
+theorem sim_idxleaf (env0 : Env) (inv0 : SInv T.M0 T.S.cs T.cnts T.W T.σ T.vtys s env0 M)
     (hpre : ∀ i, i < nd → T.σ.getD i 0 = c.slots.getD i 0)
     (callf : String → List Int → Option Int)
     (t : CSem.Ty) (arr n xb : Nat) (i : Expr) (k : Ctx) (pre post : List Item) (env : Env) (v : Int)
@@ -109,7 +109,7 @@ theorem sim_idxleaf (env0 : Env) (inv0 : SInv T.M0 T.S.cs T.cnts T.σ T.vtys s e
 
 /-- a call inside an expression -/
 theorem sim_callleaf (n : Nat) (hc : CallOK T n) (env0 : Env)
-    (inv0 : SInv T.M0 T.S.cs T.cnts T.σ T.vtys s env0 M)
+    (inv0 : SInv T.M0 T.S.cs T.cnts T.W T.σ T.vtys s env0 M)
     (rt : CSem.Ty) (fn : String) (args : List Expr) (k : Ctx) (pre post : List Item) (env : Env) (v : Int)
     (hok : efrag T (.call rt fn args)) (hwt : (Expr3.call rt fn args).wt (T.vtys.take nd) = true)
     (hev : evalE3 T.S.cs (callOf T.P fun s' st' => exec T.S.cs T.P n s' st') s (.call rt fn args) = some v)
@@ -138,8 +138,8 @@ theorem sim_callleaf (n : Nat) (hc : CallOK T n) (env0 : Env)
       · exact absurd h hPne
       · exact h
     simp only [efrag, hne, Bool.false_or, Expr3.callsOK, hlk, Expr3.arrsOK, Bool.and_true,
-      Bool.and_eq_true, beq_iff_eq] at hok
-    obtain ⟨hret, hpar⟩ := hok
+      Bool.and_eq_true, beq_iff_eq, List.isEmpty_iff] at hok
+    obtain ⟨⟨hret, hpar⟩, hpw⟩ := hok
     simp only [Expr3.wt] at hwt
     cases hbody : exec T.S.cs T.P n (initStore g vs) g.body with
     | none => simp only [hbody] at hcall; cases hcall
@@ -179,9 +179,9 @@ theorem sim_callleaf (n : Nat) (hc : CallOK T n) (env0 : Env)
           (hroomM.sp_enter hd)
         have hstep1 := step_call_item T hits1 hrd1 hfi henter
         have hsptop : M.sp ≤ stackTop := Nat.le_trans inv0.a.sp_hi inv0.a.top
-        obtain ⟨kk, st, r, hreachc, hstepc, hrr, hrg⟩ := hf fn g sid vs v M
+        obtain ⟨kk, st, r, hreachc, hstepc, hrr, hrg⟩ := hf.plain fn g sid vs v M
           (mkFr T.S.x env1 (posOf T.S.o0 (pre ++ la.1)).1 (posOf T.S.o0 (pre ++ la.1)).2 :: T.S.x.rest)
-          T.S.x.tr envc hlk henvOK inv0.a.mem hroomM hsptop hargs0 hbody
+          T.S.x.tr envc hlk hpw henvOK inv0.a.mem hroomM hsptop hargs0 hbody
         rw [hret] at hrr hrg
         obtain ⟨r', hco, hrep'⟩ := rep_coerce hrr.1
         have hstep2 := retCont_call_item T (env := env1) (M := M) hits1 hco
@@ -200,9 +200,9 @@ theorem sim_exprOut3 (n : Nat) (hc : CallOK T n) {pre post : List Item} (hp : Po
     (hwt : e.wt (T.vtys.take nd) = true) (hok : efrag T e) {v : Int}
     (hev : evalE3 T.S.cs (callOf T.P fun s' st' => exec T.S.cs T.P n s' st') s e = some v)
     (hits : T.S.its = pre ++ (exprOut3 T.S.cs c e).items ++ post) {env : Env}
-    (inv : SInv T.M0 T.S.cs T.cnts T.σ T.vtys s env M) :
+    (inv : SInv T.M0 T.S.cs T.cnts T.W T.σ T.vtys s env M) :
     ∃ m env' r, T.Reach m (T.at env M pre) (T.at env' M (pre ++ (exprOut3 T.S.cs c e).items)) ∧
-      SInv T.M0 T.S.cs T.cnts T.σ T.vtys s env' M ∧ Frame c.lastid (exprOut3 T.S.cs c e).ctx.lastid env env' ∧
+      SInv T.M0 T.S.cs T.cnts T.W T.σ T.vtys s env' M ∧ Frame c.lastid (exprOut3 T.S.cs c e).ctx.lastid env env' ∧
       readVal T.S.p env' (exprOut3 T.S.cs c e).val = .ok r ∧ Rep e.ty v r ∧
       InRange (e.ty.intTy T.S.cs) v := by
   have hpre : ∀ i, i < nd → T.σ.getD i 0 = c.slots.getD i 0 := fun i hi => hext.1 i (by
@@ -250,10 +250,10 @@ theorem sim_condOut3 (n : Nat) (hc : CallOK T n) {pre post : List Item} (hp : Po
     (hev : evalE3 T.S.cs (callOf T.P fun s' st' => exec T.S.cs T.P n s' st') s e = some v)
     (hits : T.S.its = pre ++ (exprOut3 T.S.cs c e).items ++
       (jnzOut T.S.cs ((c.upd (exprOut3 T.S.cs c e).ctx).addBlocks k) e.ty (exprOut3 T.S.cs c e).val).items ++ post)
-    {env : Env} (inv : SInv T.M0 T.S.cs T.cnts T.σ T.vtys s env M) :
+    {env : Env} (inv : SInv T.M0 T.S.cs T.cnts T.W T.σ T.vtys s env M) :
     ∃ n env' r w, T.Reach n (T.at env M pre) (T.at env' M (pre ++ (exprOut3 T.S.cs c e).items ++
         (jnzOut T.S.cs ((c.upd (exprOut3 T.S.cs c e).ctx).addBlocks k) e.ty (exprOut3 T.S.cs c e).val).items)) ∧
-      SInv T.M0 T.S.cs T.cnts T.σ T.vtys s env' M ∧
+      SInv T.M0 T.S.cs T.cnts T.W T.σ T.vtys s env' M ∧
       readVal T.S.p env' (jnzOut T.S.cs ((c.upd (exprOut3 T.S.cs c e).ctx).addBlocks k) e.ty
         (exprOut3 T.S.cs c e).val).val = .ok r ∧ r.asW = .ok w ∧ (w ≠ 0 ↔ v ≠ 0) := by
   have sj := jnzArg_straight T.S.cs ((c.upd (exprOut3 T.S.cs c e).ctx).addBlocks k).ctx e.ty
